@@ -59,6 +59,7 @@ type FuncSpec struct {
 	NoSafety   bool // only the stated clauses are proved; the zero-annotation safety sweep is not claimed
 	Decreases  *Clause
 	Rank       int
+	Asserts    []*AssertClause
 }
 
 type Lemma struct {
@@ -78,6 +79,15 @@ type Contracts struct {
 }
 
 func specKey(pkg, name string) string { return pkg + "." + name }
+
+// assert[label] at `statement text`: E — an inline assertion attached to the first simple statement whose source
+// contains the text: checked after it (before it for continue/break/return)
+var assertRe = regexp.MustCompile("^assert(\\[[^\\]]*\\])?\\s+at\\s+`([^`]+)`\\s*:\\s*(.*)$")
+
+type AssertClause struct {
+	Clause
+	At string
+}
 
 var clauseRe = regexp.MustCompile(`^(requires|ensures|invariant|decreases)(\[[^\]]*\])?\s+(.*)$`)
 
@@ -306,6 +316,18 @@ func parseClauseLine(fs *FuncSpec, l string) error {
 				ls.Invs = append(ls.Invs, cl)
 			}
 		}
+		return nil
+	}
+	if am := assertRe.FindStringSubmatch(l); am != nil {
+		node, err := parseSpec(am[3])
+		if err != nil {
+			return fmt.Errorf("%q: %v", am[3], err)
+		}
+		lab := strings.Trim(am[1], "[]")
+		if lab == "" {
+			lab = fmt.Sprint(len(fs.Asserts) + 1)
+		}
+		fs.Asserts = append(fs.Asserts, &AssertClause{Clause: Clause{Label: lab, Text: am[3], Node: node}, At: am[2]})
 		return nil
 	}
 	m := clauseRe.FindStringSubmatch(l)
